@@ -136,6 +136,74 @@ mutant('C18', 'rec-no-seek', 'cache.py',
        "                            resume = self.resume_index(history, i)\n",
        'recomputed item appended after the torn bytes instead of replacing them (still correct values, never cached) - informational', expect='survive')
 
+# ------------------------------------------------------------------ C14
+mutant('C14', 'no-finite-check', 'matrix/_base.py',
+       "        if not numpy.isfinite(lhs).all():\n            raise MatrixError('solver returned non-finite left hand side')\n",
+       "",
+       'non-finite back-end results are passed on', expect='R-non-finite')
+mutant('C14', 'tolerance-never-raises', 'matrix/_base.py',
+       "        if resnorm > atol > 0:\n            raise ToleranceNotReached(lhs)\n",
+       "",
+       'unconverged linear solves are returned silently', expect='R-tolerance-not-met')
+mutant('C14', 'float-constraints-dropped', 'matrix/_base.py',
+       "                lhs[~J] = constrain[~J].reshape((-1,)+(1,)*(lhs.ndim-1))\n",
+       "",
+       'prescribed values of float constraints are not imposed', expect='R-constraint-violated')
+mutant('C14', 'backend-exception-gives-zeros', 'matrix/_base.py',
+       "        except Exception as e:\n            raise MatrixError('solver failed with error: {}'.format(e)) from e\n        if not numpy.isfinite(lhs).all():",
+       "        except Exception as e:\n            lhs = numpy.zeros_like(rhs)\n        if not numpy.isfinite(lhs).all():",
+       'a failing back end is papered over with zeros', expect='R-tolerance-not-met')
+mutant('C14', 'submatrix-memo-rows-only', 'matrix/_base.py',
+       "        if self._cached_submatrix is None or (rows != self._cached_rows).any() or (cols != self._cached_cols).any():\n",
+       "        if self._cached_submatrix is None or (rows != self._cached_rows).any():\n",
+       'cached sub-matrix reused for other columns (needs two solves on one matrix with equal row but different column selection)', expect='R-')
+mutant('C14', 'system-direct-check-dropped', 'solver.py',
+       "            if tol > 0 and not resnorm <= tol:\n                raise SolverError(f'failed to reach desired tolerance of {tol:.0e}')\n",
+       "",
+       'System.solve does not verify the residual norm of a direct method', expect='R-tolerance-not-met')
+mutant('C14', 'step-retry-from-advanced-arguments', 'solver.py',
+       "                halfway_arguments = self.step(arguments=arguments0, **halfstep_args)\n",
+       "                halfway_arguments = self.step(arguments=arguments, **halfstep_args)\n",
+       'reverts fix a3d5258: time advanced twice after a bisection retry', expect='R-time-not-advanced')
+mutant('C14', 'droptol-flipped', 'solver.py',
+       "        mycons[colidx[abs(data) > droptol]] = False # unconstrain dofs with nonzero columns\n",
+       "        mycons[colidx[abs(data) < droptol]] = False # unconstrain dofs with nonzero columns\n",
+       'drop tolerance comparison inverted', expect='R-droptol-pattern')
+mutant('C14', 'nan-residual-accepted', 'solver.py',
+       "            while iiter < miniter or not resnorm <= tol:\n                if not numpy.isfinite(resnorm):\n                    raise SolverError('residual norm is not finite')\n",
+       "            while iiter < miniter or resnorm > tol:\n",
+       'reverts fix 5c52c61: NaN residual norm accepted as converged', expect='R-tolerance-not-met')
+mutant('C14', 'bool-constraints-ignore-lhs0', 'matrix/_base.py',
+       "            if constrain.dtype == bool:\n                J = ~constrain\n",
+       "            if constrain.dtype == bool:\n                J = ~constrain\n                lhs[constrain] = 0\n",
+       'boolean constraints do not hold the values of the initial guess', expect='R-constraint-violated')
+mutant('C14', 'newton-unconstrained-update', 'solver.py',
+       "        v[free] = x\n",
+       "        v[free] = x\n            v[~free] = numpy.where(abs(v[~free]) < 1e-300, v[~free], v[~free] * (1 + 1e-15))\n",
+       'constrained entries perturbed by one ulp on reconstruction', expect='R-constraint-violated')
+
+# ------------------------------------------------------------------ C03
+mutant('C03', 'cached-constants-not-frozen', 'evaluable.py',
+       "        for v in cache_vars:\n            main.append(_pyast.Exec(v.get_attr('setflags').call(write=_pyast.LiteralBool(False))))\n",
+       "",
+       'cached constant intermediates are handed out writable', expect='V-result')
+mutant('C03', 'loops-cached-as-constant', 'evaluable.py',
+       "            if isinstance(evaluable, Array) and evaluable.isconstant:\n                cache_evaluables.add(evaluable)\n",
+       "            if isinstance(evaluable, Array) and (evaluable.isconstant or isinstance(evaluable, Loop)):\n                cache_evaluables.add(evaluable)\n",
+       'argument dependent loops are skipped on rerun', expect='V-result')
+mutant('C03', 'first-run-flag-cleared-early', 'evaluable.py',
+       "        main.append(_pyast.Assign(first_run, _pyast.LiteralBool(False)))\n        main = _pyast.Block([\n            _pyast.Global((first_run,) + cache_vars),\n            _pyast.If(first_run, main, main_rerun),\n        ])\n",
+       "        main = _pyast.Block([\n            _pyast.Global((first_run,) + cache_vars),\n            _pyast.If(first_run, _pyast.Block([_pyast.Assign(first_run, _pyast.LiteralBool(False)), main]), main_rerun),\n        ])\n",
+       'a first run that fails half way leaves the function in rerun mode with unset cached values', expect='E-call-raised')
+mutant('C03', 'scalar-arguments-count-as-constant', 'evaluable.py',
+       "    @property\n    def isconstant(self):\n        return not self.arguments\n",
+       "    @property\n    def isconstant(self):\n        return not any(getattr(a, 'ndim', 1) for a in self.arguments)\n",
+       'sub-expressions depending only on 0-d arguments are cached across calls (needs a scalar argument that changes)', expect='V-result')
+mutant('C03', 'constant-matrix-too-eager', 'solver.py',
+       "        self.is_constant_matrix = self.is_linear and not any(col.arguments for row in block_jacobian for col in row)\n",
+       "        self.is_constant_matrix = self.is_linear\n",
+       'System caches the matrix of a linear problem although it depends on another argument', expect='V-system')
+
 
 def run_mutant(prop, m, tier='quick', keep=False):
     scratch = f'/dev/shm/vsim-mut-{os.getpid()}-{m["id"]}'
